@@ -594,9 +594,21 @@ def rnd_case(rng, cid, kinds, unit, ndev_max=2, scripts=True, maxz=99):
     for d in range(nd):
         p = [dict(op="open", d=d)]
         ncyc = rng.choice([1, 1, 2, 3])
+        prev = None
         for cyc in range(ncyc):
             npath += 1
-            c["paths"][npath] = "x%d_p%d%s" % (cid, npath, ext_of(c["devs"][d]))
+            name = "x%d_p%d%s" % (cid, npath, ext_of(c["devs"][d]))
+            # path names related to the device's previous one: an extension of it, or a proper prefix of it (still a fresh path)
+            if prev is not None and prev.endswith(".bak") and rng.random() < 0.5:
+                name = prev[:-4]
+            elif prev is not None and rng.random() < 0.15:
+                name = prev + ".bak"
+            elif rng.random() < 0.2:
+                name += ".bak"
+            if name in c["paths"].values():
+                name = "x%d_p%d%s" % (cid, npath, ext_of(c["devs"][d]))
+            prev = name
+            c["paths"][npath] = name
             sx, sy = rng.choice(SCALES)
             # (tiff-json refuses a configuration without metadata, so it mostly gets one)
             allm = list(range(1, len(METAS) + 1))
